@@ -22,11 +22,13 @@ Section sim.
 
   Lemma Idep_transfer : forall (K : nat * key -> Prop) sa sb s Ia Ib,
     (forall ch k b olds, K (ch, k) -> dp sb (ch, k) = Some (b, olds) ->
-       exists olds', dp sa (ch, k) = Some (b, olds') /\ Vfull olds' (t_iters sa) Ia = Vfull olds (t_iters sb) Ib) ->
+       exists olds', dp sa (ch, k) = Some (b, olds') /\ length olds' = length olds /\
+                     Vfull olds' (t_iters sa) Ia = Vfull olds (t_iters sb) Ib) ->
     Idep Fs K sa s Ia -> Idep Fs K sb s Ib.
   Proof.
-    intros K sa sb s Ia Ib H HD ch k b olds HK Hdp. destruct (H ch k b olds HK Hdp) as (olds' & E & V).
-    destruct (HD ch k b olds' HK E) as (r & R1 & R2). exists r. split; auto. intros fs Hf Hk. rewrite <- V. auto.
+    intros K sa sb s Ia Ib H HD ch k b olds HK Hdp. destruct (H ch k b olds HK Hdp) as (olds' & E & L & V).
+    destruct (HD ch k b olds' HK E) as (r & R1 & (fs0 & F1 & F2 & F3) & R2). exists r. split; auto.
+    split; [exists fs0; repeat split; auto; congruence|]. intros fs Hf Hk. rewrite <- V. auto.
   Qed.
 
   Lemma Pplain_transfer : forall sa sb s, (forall ch, oqeq (pl sb ch) (pl sa ch)) -> Pplain sa s -> Pplain sb s.
@@ -75,7 +77,7 @@ Section sim.
       - rewrite app_length; cbn; lia.
       - apply Forall2_app; auto. constructor; [left; auto|constructor].
       - eapply Idep_transfer; [|eapply Idep_weaken; [|exact HD]; intros ck Hk; apply HKN; exact Hk].
-        intros ch k b olds HK Hdp. exists olds. split; [exact Hdp|]. symmetry. apply Vfull_enter. exact Hlits. }
+        intros ch k b olds HK Hdp. exists olds. split; [exact Hdp|]. split; [reflexivity|]. symmetry. apply Vfull_enter. exact Hlits. }
     destruct (1 <? len) eqn:El.
     - (* loop *)
       set (m := len - 1) in *. set (idx := t_label st1) in *.
@@ -129,8 +131,9 @@ Section sim.
              split; [|split; [|split]].
              ++ eapply Idep_transfer; [|exact Dx]. intros ch k0 b olds HK Hdp.
                 destruct (ENT st stl 0 SD1 ch k0 b olds HK Hdp) as (suf & Elb & ->).
-                exists ((its ++ [m]) ++ suf). split.
+                exists ((its ++ [m]) ++ suf). split; [|split].
                 ** rewrite SD2, Elb. reflexivity.
+                ** rewrite !app_length. reflexivity.
                 ** rewrite SI2. change (t_iters stl) with (its ++ [m]).
                    rewrite !Vfull_level by auto. rewrite Vlev_same, Vlev_loop by auto. apply mid_eq; lia.
              ++ intros ck Hnz Hn. rewrite Fx, X5; auto.
@@ -148,7 +151,7 @@ Section sim.
       + rewrite app_length. exact Pc1.
       + unfold Pinv. split; auto. split; [exact A1|]. split; [exact P1|]. split; [|split; [|split]].
         * eapply Idep_transfer; [|exact D1]. intros ch k0 b olds HK Hdp.
-          exists olds. split; [exact Hdp|]. destruct (ENT st stl 0 SD1 ch k0 b olds HK Hdp) as (suf & Elb & ->).
+          exists olds. split; [exact Hdp|]. split; [reflexivity|]. destruct (ENT st stl 0 SD1 ch k0 b olds HK Hdp) as (suf & Elb & ->).
           rewrite SI1. change (t_iters stl) with (its ++ [m]). rewrite !Vfull_level by auto.
           rewrite Vlev_same, Vlev_loop by auto. apply mid_eq; lia.
         * auto.
@@ -165,6 +168,7 @@ Section sim.
           change (dp (with_iters st2 its) (ch, k0)) with (dp st2 (ch, k0)) in Hdp.
           destruct (ENT st1 st2 m SD2 ch k0 b olds HK Hdp) as (suf & Elb & ->).
           exists ((its ++ [0]) ++ suf). split; [change (dp stl (ch, k0)) with (dp st1 (ch, k0)); rewrite SD1, Elb; reflexivity|].
+          split; [rewrite !app_length; reflexivity|].
           change (t_iters stl) with (its ++ [m]). change (t_iters (with_iters st2 its)) with its.
           rewrite Vfull_level, Vfull_exit by auto. rewrite Vlev_loop by auto. apply mid_eq; lia.
         * intros ck Hnz Hn. assert (Hn' : option_map (up_dep len) (lb ck) = None) by exact Hn. destruct (lb ck) eqn:Elb; [discriminate|]. rewrite Y5, F1; auto.
@@ -190,7 +194,7 @@ Section sim.
       + apply (Idep_weaken Fs (Kof lb) (Kof lN)); [intros ck Hk; apply HKN; exact Hk|].
         eapply Idep_transfer; [|exact D1]. intros ch k0 b olds HK Hdp.
         change (dp (with_iters st1 its) (ch, k0)) with (dp st1 (ch, k0)) in Hdp.
-        exists olds. split; [exact Hdp|]. destruct (ENT st st1 0 SD1 ch k0 b olds HK Hdp) as (suf & Elb & ->).
+        exists olds. split; [exact Hdp|]. split; [reflexivity|]. destruct (ENT st st1 0 SD1 ch k0 b olds HK Hdp) as (suf & Elb & ->).
         rewrite SI1. change (t_iters (with_iters st1 its)) with its.
         rewrite Vfull_pre, Vfull_exit; auto. rewrite <- app_assoc. reflexivity.
         rewrite !app_length. cbn. lia.
